@@ -4,13 +4,58 @@ From JV Require Import Lib.Base Lib.Regex Model.TyVal Model.Scalar Model.C01Conf
 
 Definition is_vnone (v : val) : bool := match v with VNone => true | _ => false end.
 
+(* an explicit None that a dump dropping None entries loses: at the leaf itself, or in a field of a dataclass-typed
+   value anywhere inside it — where the field default is not None, or where missing fields are not completed on the way
+   back (fill mode FNo, see Model/C01Conf.v) *)
+Definition fill_of (m : mode) : fill := match m with Des f => f | Ser _ => FNo end.
+
+Fixpoint none_loss (f : fill) (t : cty) (w : val) {struct t} : bool :=
+  match t with
+  | CData fs =>
+      match w with
+      | VDict d =>
+          (fix go (fs : list (str * cty * val)) : bool :=
+             match fs with
+             | [] => false
+             | (n, t1, dflt) :: fs' =>
+                 match dict_get (VStr n) d with
+                 | Some VNone => negb (is_vnone dflt) || match f with FNo => true | _ => false end
+                 | Some x => none_loss (fill_of (field_mode f t1)) t1 x
+                 | None => false
+                 end || go fs'
+             end) fs
+      | _ => false
+      end
+  | CUnion ts =>
+      (fix go (ts : list cty) : bool :=
+         match ts with [] => false | t1 :: ts' => none_loss (fill_of (sub_mode (Des f))) t1 w || go ts' end) ts
+  | CList t1 =>
+      match seq_items w with Some l => existsb (none_loss (fill_of (item_mode (Des f) t1)) t1) l | None => false end
+  | CTupleVar t1 | CSet t1 =>
+      match seq_items w with Some l => existsb (none_loss (fill_of (sub_mode (Des f))) t1) l | None => false end
+  | CDict _ t1 =>
+      match w with VDict d => existsb (fun kv => none_loss (fill_of (sub_mode (Des f))) t1 (snd kv)) d | _ => false end
+  | CTuple ts =>
+      match seq_items w with
+      | Some l => (fix go (ts : list cty) (l : list val) : bool :=
+                     match ts, l with
+                     | t1 :: ts', x :: l' => none_loss (fill_of (sub_mode (Des f))) t1 x || go ts' l'
+                     | _, _ => false
+                     end) ts l
+      | None => false
+      end
+  | _ => false
+  end.
+
+Definition top_fill (t : cty) : fill := if is_dc_direct t then FAll else FNo.
+
 Section Guard.
 Variable yl : str -> option val.
 
 (* 0 = inside the guard.
    1 = save-skip-none-null-over-default : the variant drops None entries (save()'s default) and the configuration
-       holds an explicit None where the declared default is not None
-   2 = skip-default-trims-dict-leaf     : skip_default deletes items INSIDE a dict-valued leaf
+       holds an explicit None where the declared default is not None (a leaf, or a field of a dataclass-typed value)
+   (2 = skip-default-trims-dict-leaf: repaired in /repo d576475, class retired)
    3 = skip-default-eq-conflates-types  : skip_default drops an entry that == its default but is not the same value
        type for type (1 / 1.0 / True)
    4 = json-nonfinite-float             : a JSON format writes Infinity / -Infinity / NaN
@@ -23,9 +68,7 @@ Definition skipdef_class (vr : variant) (lf : leaf) (w : val) : N :=
   if vr_skip_default vr then
     match cleanup yl true (vr_skip_none vr) (lf_ty lf) (lf_def lf) w,
           cleanup yl false (vr_skip_none vr) (lf_ty lf) (lf_def lf) (lf_def lf) with
-    | EPresent j, EPresent dj =>
-        if py_eq j dj then (if veq (lf_def lf) w then 0%N else 3%N)
-        else if val_eqb (trim_rec j dj) j then 0%N else 2%N
+    | EPresent j, EPresent dj => if py_eq j dj then (if veq (lf_def lf) w then 0%N else 3%N) else 0%N
     | _, _ => 0%N
     end
   else 0%N.
@@ -42,10 +85,10 @@ Definition text_class (vr : variant) (lf : leaf) (w : val) : N :=
   end.
 
 (* the leaf value survives its own serialise / parse pair (computed form of leaf_stable) *)
-Definition leaf_stable_b (lf : leaf) (w : val) : bool :=
+Definition leaf_stable_b (sn : bool) (lf : leaf) (w : val) : bool :=
   match w with
   | VNone => true
-  | _ => match ser_leaf yl (lf_ty lf) (lf_def lf) w with
+  | _ => match ser_leaf yl sn (lf_ty lf) (lf_def lf) w with
          | Some j => match check_entry yl (lf_ty lf) (lf_def lf) j with
                      | Some w' => veq w' w
                      | None => false
@@ -58,8 +101,8 @@ Definition leaf_class (vr : variant) (lw : leaf * val) : N :=
   let '(lf, w) := lw in
   if vr_comments vr then 6%N
   else if has_null_enum w then 7%N
-  else if veq w (lf_def lf) && negb (leaf_stable_b lf w) then 8%N
-  else if vr_skip_none vr && is_vnone w && negb (is_vnone (lf_def lf)) then 1%N
+  else if vr_skip_none vr && ((is_vnone w && negb (is_vnone (lf_def lf))) || none_loss (top_fill (lf_ty lf)) (lf_ty lf) w) then 1%N
+  else if veq w (lf_def lf) && negb (leaf_stable_b (vr_skip_none vr) lf w) then 8%N
   else if negb (N.eqb (skipdef_class vr lf w) 0) then skipdef_class vr lf w
   else text_class vr lf w.
 
